@@ -29,6 +29,7 @@ ORDER = {"__lt__": ast.Lt, "__le__": ast.LtE, "__gt__": ast.Gt, "__ge__": ast.Gt
 
 def run(rep, ctx):
     rep.run_rule("C18.R1", "FractionValue: float is number + fraction; four explicit order dunders on float(); copy keeps both parts", r1_fraction_value, ctx)
+    rep.run_rule("C18.R5", "FractionValue.CreateFromString hands the parsed number, numerator and denominator on unchanged (format -> parse keeps the amount)", r5_parse, ctx)
     rep.run_rule("C18.R2", "Fraction: arithmetic dunders apply the matching operator; == and < share one comparison", r2_fraction, ctx)
     rep.run_rule("C18.R3", "FractionScalar agrees with Scalar: ordering, validation and value access", r3_siblings, ctx)
     rep.run_rule("C18.R4", "fraction parts are converted separately: sound only for units without offset", r4_parts, ctx)
@@ -349,3 +350,53 @@ def r4_parts(rep, ctx):
                   "number and numerator are converted separately and no unit of the table has an offset",
                   "ConvertFractionValue converts the number and the numerator by two separate unit conversions; %d units of the table have an offset (%s), so the offset is applied to each part: 5 1/2 degC becomes 415.2 K instead of 278.65 K"
                   % (len(affine), ", ".join(affine)), fn=fn, facts={"affine_units": affine})
+
+
+# ------------------------------------------------------------------------------------------------
+def r5_parse(rep, ctx):
+    """The formatter writes `number numerator/denominator` with the additive meaning number + numerator/denominator
+    (C18.R1: __float__).  The parser keeps that meaning only if each parsed group reaches the constructed value
+    as parsed: FractionValue(<parse(group 'float')> | 0.0, Fraction(<parse(group 'numerator')>, <parse(group 'denominator')>) | Fraction(0.0, 1.0))."""
+    m = ctx.model
+    fn = m.method("FractionValue", "CreateFromString")
+    res = Resolver(m, fn)
+    rets = [r for r in own_nodes(fn.node) if isinstance(r, ast.Return) and r.value is not None]
+    if not rets:
+        raise AnalysisError("FractionValue.CreateFromString has no return")
+
+    def parsed_group(t, group):
+        """parse(<match>.group(group)) for some parsing callable, nothing else"""
+        if t[0] != "call" or len(t[2]) != 1:
+            return False
+        g = t[2][0]
+        is_group = lambda a_: a_[0] == "call" and a_[1][0] == "attr" and a_[1][2] == "group" and a_[2] == (("const", group),)
+        # (a None alternative is the 'group absent' case, which the code tests before parsing)
+        return any(is_group(a_) for a_ in alternatives(g)) and all(is_group(a_) or a_ == ("const", None) for a_ in alternatives(g))
+
+    n = 0
+    for r in rets:
+        t = res.term(r.value)
+        for a_ in alternatives(t):
+            if not (a_[0] == "call" and a_[1] in (("name", "FractionValue"), ("param", 0, fn.params[0])) and len(a_[2]) == 2):
+                raise AnalysisError("FractionValue.CreateFromString returns %s: not FractionValue(number, fraction)" % show(a_, 100))
+            n += 1
+            num_t, frac_t = a_[2]
+            ok_num = all(x == ("const", 0.0) or x == ("const", 0) or parsed_group(x, "float") for x in alternatives(num_t))
+            rep.check(ok_num, "C18.R5", "CreateFromString:number", "the number part is the parsed 'float' group (or 0.0 when absent)",
+                      "the number part handed to FractionValue is %s, not the parsed text of the number" % show(num_t, 100), node=r, fn=fn)
+            ok_frac = True
+            why = ""
+            for f_ in alternatives(frac_t):
+                if not (f_[0] == "call" and f_[1] == ("name", "Fraction") and len(f_[2]) == 2):
+                    ok_frac, why = False, show(f_, 100)
+                    continue
+                nu, de = f_[2]
+                for x in alternatives(nu):
+                    if not (x in (("const", 0.0), ("const", 0)) or parsed_group(x, "numerator")):
+                        ok_frac, why = False, "numerator " + show(x, 100)
+                for x in alternatives(de):
+                    if not (x in (("const", 1.0), ("const", 1)) or parsed_group(x, "denominator")):
+                        ok_frac, why = False, "denominator " + show(x, 100)
+            rep.check(ok_frac, "C18.R5", "CreateFromString:fraction", "the fraction is Fraction(parsed numerator, parsed denominator) (or 0/1 when absent)",
+                      "the fraction handed to FractionValue is built from %s: the parsed text is altered on the way (sign, scaling), so formatting followed by parsing does not give the amount back" % why, node=r, fn=fn)
+    rep.floor("C18.R5", "constructing returns of CreateFromString", n, 1)
